@@ -304,6 +304,9 @@ def random_typed(rng, depth):
         for _ in range(rng.below(3)):
             kd = random_like(rng, kt, 0)
             key = kd if isinstance(kd, str) else ("true" if kd is True else ("false" if kd is False else json.dumps(kd)))
+            if kt["k"] == "f64" and rng.chance(1, 2):
+                # valid JSON number spellings that are not the shortest form (other writers: "1.0", exponents, trailing zeros)
+                key = rng.choice(["1.0", "1e3", "2.50", "-0.0", "1E2", "0.1e1", "100", "-7", "1.5e-3"])
             doc[key] = random_like(rng, vt, depth - 1)
         return {"k": "map", "key": kt, "value": vt}, doc
     fs = []
